@@ -76,6 +76,9 @@ def simple_desc(rng, nblocks):
 
 def gen_case(rng, eol):
     doc = gen_md.Doc()
+    if rng.random() < 0.12:
+        # a soft-wrapped opening paragraph: one very long first line (the first line ending of the file comes late)
+        doc.add([" ".join(rng.choice(["stir", "well", "and", "then", "leave", "it", "overnight"]) for _ in range(rng.choice([230, 300, 700]))), ""])
     if rng.random() < 0.8:
         gen_md.gen_heading(rng, doc)
     ngroups = rng.choice([1, 1, 2])
@@ -97,9 +100,15 @@ def gen_case(rng, eol):
             name = rng.choice(earlier).split(" =")[0]
             stmts[si] = "%s = boil(1 g water%d)" % (name, rng.randint(0, 99))
             col = 1
+    fault_line_text = None
     if kind == "proportion":
         stmts[si] = "serve(  1/2 of unknown%d)" % rng.randint(0, 99)
         col = stmts[si].index("1/2") + 1
+        if rng.random() < 0.35:
+            # the same fault inside a step laid out over several lines, the proportion alone in brackets on a line of its own
+            fault_line_text = "    1/2 of unknown%d" % rng.randint(0, 99)
+            stmts[si] = "\n".join(["serve(", "  (", fault_line_text, "  ),", "  1 g salt%d," % rng.randint(0, 99), ")"])
+            col = 5
     if kind == "syntax":
         # a stray or missing token that the grammar rejects on this very line, whatever follows in the block
         stmts[si] = rng.choice(SYNTAX_FAULTS) % rng.randint(0, 99)
@@ -131,9 +140,9 @@ def gen_case(rng, eol):
         if (g, b) == (gi, bi):
             fault_extra = extra
             fault_block = doc.blocks[-1]
-            off_line = text.split("\n").index(stmts[si])
+            off_line = text.split("\n").index(fault_line_text if fault_line_text is not None else stmts[si])
             fault_line = fault_block["first_line"] + off_line + 1    # 1-based document line
-            fault_text = stmts[si]
+            fault_text = fault_line_text if fault_line_text is not None else stmts[si]
         first = False
     first_line = next((l for l in doc.lines), "")
     plain_start = bool(first_line.strip()) and not first_line.startswith((" ", "\t", ">", "-", "`", "~", "*", "<"))
